@@ -170,6 +170,11 @@ def run(tier: str, seed: int) -> int:
             for j, (a, sz) in enumerate(recs):
                 if sz >= 48:
                     r = impl_generate("nordicsemi.com", f"class{j}", a, sz, j % 2 == 0, j % 3 == 0, [None, "update", "update-and-boot"][j % 3], d)
+                    if "ok" not in r:
+                        res.spec_failures.append({"request": {"vendor": "nordicsemi.com", "class": f"class{j}", "address": a, "size": sz}, "impl": r,
+                                                  "what": "mpi generate failed on a valid request (while preparing the inputs of a merge)"})
+                        files = None
+                        break
                     text = r["ok"]
                 else:
                     import intelhex, io
@@ -180,6 +185,8 @@ def run(tier: str, seed: int) -> int:
                     text = s.getvalue()
                 files.append(text)
                 images.append(drv.call({"op": "ihex.read", "text": text})["ok"])
+            if files is None:
+                continue
             impl = impl_merge(address, size, files, d)
             req = {"op": "mpi.merge", "address": address, "size": size, "inputs": images}
             model = drv.call(req)
